@@ -140,9 +140,14 @@ def replay(v, repo, cache):
     if name and name.startswith("probe:"):
         import frame
         cases = frame.NUMBER_PROBES.get(name[6:])
-    elif name and name.split(":")[0] in ADAPTERS and v.get("playback") is not None:
+    elif name and name.split(":")[0] in ADAPTERS:
         v = dict(v, adapter_param=name.split(":", 1)[1] if ":" in name else None)
-        cases = ADAPTERS[name.split(":")[0]](v["playback"], v)
+        try:
+            # adapters that decode a counterexample need the playback values; probe-style adapters
+            # (concrete harnesses) run their fixed case list and ignore it
+            cases = ADAPTERS[name.split(":")[0]](v.get("playback") or [], v)
+        except (IndexError, KeyError, TypeError, ValueError):
+            cases = None
     elif v.get("probe"):
         cases = v["probe"]
     if not cases:
@@ -311,6 +316,57 @@ def _slice_range(vals, v):
         else:
             cases.append({"source": src, "oracle": {"oracle": "no_crash"}})
     return cases
+
+
+@adapter("lex_unicode_pair")
+def _lex_unicode_pair(vals, v):
+    cu1, cu2 = u(vals, 0), u(vals, 1)
+    upper = bool(vals[2][0]) if len(vals) > 2 and vals[2] else False
+    fmt = "%04X" if upper else "%04x"
+    src = '"\\u' + fmt % cu1 + '\\u' + fmt % cu2 + '"'
+    sur = lambda c: 0xD800 <= c <= 0xDFFF
+    if not sur(cu1) and not sur(cu2):
+        exp = chr(cu1) + chr(cu2)
+    elif 0xD800 <= cu1 < 0xDC00 and 0xDC00 <= cu2 <= 0xDFFF:
+        exp = chr(0x10000 + ((cu1 - 0xD800) << 10) + (cu2 - 0xDC00))
+    else:
+        exp = None
+    if exp is None:
+        return [{"source": src, "oracle": {"oracle": "error_expected"}}]
+    return [{"source": src, "oracle": {"oracle": "stdout_json_equals", "expected": exp}}]
+
+
+@adapter("lex_textblock")
+def _lex_textblock(vals, v):
+    """the 32 concrete inputs of the harness, against the real binary"""
+    cases = []
+    for k in range(32):
+        t = lambda bit: "\r\n" if (k >> bit) & 1 else "\n"
+        strip = k >= 16
+        src = "|||" + ("-" if strip else "") + t(0) + "  a" + t(1) + t(2) + "  b" + t(3) + "|||"
+        exp = "a" + t(1) + t(2) + "b" + t(3)
+        if strip:
+            exp = exp[:-1]
+        cases.append({"source": src, "oracle": {"oracle": "stdout_json_equals", "expected": exp}})
+    return cases
+
+
+@adapter("json_raw_char")
+def _json_raw_char(vals, v):
+    raw = bytes(x[0] for x in vals if x)
+    try:
+        ch = raw.decode("utf-8")
+    except UnicodeDecodeError:
+        return []
+    if len(ch) != 1:
+        return []
+    cp = ord(ch)
+    src = "std.parseJson('\"' + std.char(%d) + '\"')" % cp
+    if cp < 0x20 or ch == "\\":
+        return [{"source": src, "oracle": {"oracle": "error_expected"}}]
+    if ch == '"':
+        return []
+    return [{"source": src, "oracle": {"oracle": "stdout_json_equals", "expected": ch}}]
 
 
 @adapter("crop")
